@@ -380,6 +380,57 @@ def run(ctx):
             ctx.violation(Finding('R-COLORDER', RP, W, name_print, 'the column names are %s but the data columns are the independent variable followed by the variables of `for %s in %s`: when the '
                                   'independent variable is not the first variable of the file every name labels another column' % (norm(joined)[:50] if joined is not None else norm(arg)[:50],
                                                                                                                                   norm(lp.target), norm(lp.iter)[:30])))
+    # ---- R-INDEPSRC: the name on the independent-variable line is the name the first data column is taken with
+    ctx.rule('R-INDEPSRC', 'the independent-variable header line names the variable whose data are written as the first column (one source for both)')
+    k9 = consts.get('UNIT_LINE')
+    seed_v = [s2 for s2 in fn.body if isinstance(s2, ast.Assign) and norm(s2.targets[0]) == 'vals']
+    colsrc = None
+    if seed_v:
+        for n_ in walk_expr(seed_v[0].value):
+            if isinstance(n_, ast.Subscript) and norm(n_.value) == 'f.variables':
+                colsrc = norm(n_.slice)
+                break
+    if k9 is None or k9 - 1 >= len(prints) or colsrc is None:
+        ctx.undec('R-INDEPSRC', 'independent variable', where, 'header line or first data column not found')
+    else:
+        p9 = prints[k9 - 1]
+        a9 = p9.value.args[0] if p9.value.args else None
+        while isinstance(a9, ast.Call) and dotted(a9.func) == 'str' and len(a9.args) == 1:
+            a9 = a9.args[0]
+        if isinstance(a9, ast.BinOp) and isinstance(a9.op, ast.Mod) and isinstance(a9.left, ast.Constant) and a9.left.value == '%s':
+            a9 = a9.right.elts[0] if isinstance(a9.right, ast.Tuple) and len(a9.right.elts) == 1 else a9.right
+        locs = dict((s2.targets[0].id, s2.value) for s2 in fn.body if isinstance(s2, ast.Assign) and len(s2.targets) == 1 and isinstance(s2.targets[0], ast.Name))
+        t9 = norm(locs.get(a9.id, a9)) if isinstance(a9, ast.Name) else (norm(a9) if a9 is not None else None)
+        tcol = norm(locs[colsrc]) if colsrc in locs else colsrc
+        if t9 == tcol:
+            ctx.ok('R-INDEPSRC', 'independent variable', where, 'line %d and the first data column both use %s' % (k9, tcol))
+        else:
+            ctx.violation(Finding('R-INDEPSRC', RP, W, p9, 'header line %d names %s but the first data column is f.variables[%s]: when the two differ the file declares one variable as '
+                                  'independent and writes another one first; read back, the names label other columns' % (k9, t9, tcol)))
+    # ---- R-ENCODING: a writer that fixes the text encoding uses the one the reader (and the sniffer) decode with by default
+    ctx.rule('R-ENCODING', 'an encoding fixed by the writer is the default encoding of the reader and of isMine')
+
+    def _enc(x):
+        return (x or '').lower().replace('-', '').replace('_', '')
+    rdef = None
+    rparams = [a.arg for a in rd.args.args]
+    if 'encoding' in rparams:
+        i_ = rparams.index('encoding') - (len(rparams) - len(rd.args.defaults))
+        rdef = const_str(rd.args.defaults[i_]) if i_ >= 0 else None
+    wopen = [c for c in walk_expr(fn) if isinstance(c, ast.Call) and dotted(c.func) in ('open', 'io.open', 'codecs.open')]
+    if not wopen:
+        ctx.undec('R-ENCODING', 'writer open', where, 'the writer opens no file itself')
+    for c in wopen:
+        e_ = kw(c, 'encoding')
+        if e_ is None:
+            ctx.ok('R-ENCODING', norm(c)[:40], where, 'no encoding fixed (interpreter default); reader default %r' % rdef)
+        elif const_str(e_) is not None and rdef is not None and _enc(const_str(e_)) != _enc(rdef):
+            ctx.violation(Finding('R-ENCODING', RP, W, api.stmt_of(c), 'the writer encodes the text as %r, the reader and isMine decode it as %r by default: a unit or comment with a non-ASCII character '
+                                  '(micro sign, degree sign) is written as bytes the reader rejects, so the output neither re-opens nor is detected' % (const_str(e_), rdef)))
+        elif const_str(e_) is None:
+            ctx.undec('R-ENCODING', norm(c)[:40], where, 'encoding is not a literal')
+        else:
+            ctx.ok('R-ENCODING', norm(c)[:40], where, 'writer and reader default: %r' % rdef)
     # ---- R-LODSYM: the lower- and upper-limit-of-detection blocks of the reader use only their own names
     ctx.rule('R-LODSYM', 'reader: statements that build llod_* use no ulod_* name and vice versa (copy-paste symmetry)')
     nl = 0
